@@ -93,6 +93,12 @@ check("C13", "exploration", "differential testing against freshly forked interpr
       "Trusted: vp/zygote.py (fork-after-import = fresh process). Results produced in set order are compared sorted.",
       "DESIGN.md section 2, C13")
 
+check("C14", "exploration", "property-based testing (Hypothesis) of operation sequences with mutation attempts, invariant = creation-time snapshot",
+      "Bundles of Sids (incl. same-string / different-type and equal Sids built through different constructors) undergo generated sequences of public operations; every returned "
+      "container and derived Sid is mutated; after every step each bundle Sid must show its creation-time string, type, fields, uri and hash; equality, hashing, set / dict and sort laws are checked on all pairs.",
+      "Public API only. Caches of the code under test are cleared before every generated case so that failures reproduce from the saved case.",
+      "DESIGN.md section 2, C14")
+
 NOT_APPLICABLE = {
 }
 
